@@ -9,7 +9,7 @@
    (theorems.json). *)
 From Coq Require Import SpecFloat.
 Require Import Base Value Float PrintOptions ParseOptions Utf8 Reader Scan Num NumberOps Parser.
-Require Import RelFramework PositionProofs SourcesAgree.
+Require Import RelFramework PositionProofs SourcesAgree ValidTextProofs TruncProofs.
 
 Theorem C19_from_trait_location : forall ro alpha fast std_parse k inp c l cl,
   from_trait ro alpha fast std_parse k inp = PErr (XErr (ESyntax c l cl)) -> in_bounds (bytes_in inp) l cl.
@@ -117,6 +117,36 @@ Theorem C19_truncation_partial_slice : forall ro alpha fast std_parse (p s : byt
      (classify_code c = CatEof \/ c = NumberOutOfRange \/ c = InvalidUnicodeCodePoint \/ c = ExpectedOctet \/ c = RecursionLimitExceeded)).
 Proof. exact truncation_partial_slice. Qed.
 Print Assumptions C19_truncation_partial_slice.
+
+(* ... and at every call: a parser on the prefix and a parser on the whole
+   stream, standing at the same place inside the prefix (tprel), make the same
+   call. Then the whole's call fails, or both return the same item and still
+   stand side by side, or the prefix has run out: its reader is at the end and
+   its item is a value or an EOF-like error (pokres). So the statement chains
+   over iterations until the prefix runs out. *)
+Theorem C19_truncation_every_call : forall rest ro alpha fast std_parse fuel s1 s2, tprel rest s1 s2 ->
+  (exists x, fst (next_value ro alpha fast std_parse fuel s2) = PErr x) \/
+  (fst (next_value ro alpha fast std_parse fuel s1) = fst (next_value ro alpha fast std_parse fuel s2) /\
+   tprel rest (snd (next_value ro alpha fast std_parse fuel s1)) (snd (next_value ro alpha fast std_parse fuel s2))) \/
+  (ateof (rd (snd (next_value ro alpha fast std_parse fuel s1))) /\ pokres (fst (next_value ro alpha fast std_parse fuel s1))).
+Proof. intros rest ro alpha fast std_parse fuel s1 s2 H. exact (proj1 (trunc_values rest ro alpha fast std_parse fuel) s1 s2 H). Qed.
+Print Assumptions C19_truncation_every_call.
+
+(* a &str: its prefixes that are themselves strs (cut at a character boundary)
+   read like the slices of the same bytes (C06_str_slice_agree_on_text) *)
+Theorem C19_truncation_partial_str : forall ro alpha fast std_parse (p s : bytes) v,
+  utf8_valid (p ++ s) = true -> utf8_valid p = true ->
+  from_trait ro alpha fast std_parse SrcStr (bytes_events (p ++ s)) = POk v ->
+  (exists v', from_trait ro alpha fast std_parse SrcStr (bytes_events p) = POk v') \/
+  (exists c l cl, from_trait ro alpha fast std_parse SrcStr (bytes_events p) = PErr (XErr (ESyntax c l cl)) /\
+     (classify_code c = CatEof \/ c = NumberOutOfRange \/ c = InvalidUnicodeCodePoint \/ c = ExpectedOctet \/ c = RecursionLimitExceeded)).
+Proof.
+  intros ro alpha fast std_parse p s v Hps Hp E.
+  rewrite (proj1 (valid_text_agree (p ++ s) Hps ro alpha fast std_parse)) in E.
+  rewrite (proj1 (valid_text_agree p Hp ro alpha fast std_parse)).
+  exact (truncation_partial_slice ro alpha fast std_parse p s v E).
+Qed.
+Print Assumptions C19_truncation_partial_str.
 
 (* premises are satisfiable, and both outcomes occur *)
 Example C19_truncation_nonvacuous :
